@@ -213,6 +213,30 @@ def run(ctx):
                                    "case": m, "impl": m.get("real"), "model": m.get("gomodel")})
             for i in range(ncmp):
                 ctx.add_case("real-go %s %d %d %d" % (nm, cs, ctx.seed, i), False)
+    # run o symex_go against the direct environment-passing interpreter of coq/C02/Direct.v (dtree_sound_go is validated, not proved)
+    if not ctx.replay:
+        cand = [(s_, i) for s_, i in zip(systems, infos) if not i["errors"] and any("godef" in l for l in i["labels"])]
+        if ctx.tier == "quick" and len(cand) > 5:
+            cand = ctx.rng.sample(cand, 5)
+        nw, nst = (3, 80) if ctx.tier == "quick" else (10, 150)
+        jobs = [(s_, i, rnd_lists(ctx.rng, nw, nst)) for s_, i in cand]
+        def direct_one(job):
+            s_, i, rnds = job
+            return s_["name"], G.direct_walks(i, s_, [r[:8 + 6 * nst] for r in rnds], nst, log)
+        with ThreadPoolExecutor(max_workers=4) as ex:
+            douts = list(ex.map(direct_one, jobs))
+        tot = {"agree": 0, "agree_up_to_eager_error": 0, "disagree": 0, "systems": []}
+        for nm, (ag, lz, bad, err) in douts:
+            tot["agree"] += ag
+            tot["agree_up_to_eager_error"] += lz
+            tot["disagree"] += len(bad)
+            tot["systems"].append(nm)
+            if err:
+                ctx.notes.append("direct-interpreter comparison of %s: %s" % (nm, err[:200]))
+            for d in bad[:1]:
+                ctx.breaks.append({"what": "C02 %s: run o symex_go and the direct interpreter disagree on %s.%s" % (nm, d.get("process"), d.get("label")),
+                                   "case": d, "impl": d.get("direct"), "model": d.get("symbolic")})
+        ctx.extra["symbolic_vs_direct_interpreter"] = tot
     ctx.extra["excluded_pairs"] = [{"pair": e["go"], "reason": e["reason"]} for e in G.EXCLUDED]
     if ctx.tier == "thorough" and not ctx.replay:
         for e in G.EXCLUDED:
